@@ -126,6 +126,17 @@ thread_local! {
 	static LAST_PANIC: RefCell<Option<String>> = RefCell::new(None);
 }
 
+/// Every panic of the process, whatever thread it happened in ("thread name: message @ location").
+static ALL_PANICS: std::sync::Mutex<Vec<String>> = std::sync::Mutex::new(Vec::new());
+
+/// Panics recorded since the last call (threads of the library under test included).
+pub fn take_all_panics() -> Vec<String> {
+	match ALL_PANICS.lock() {
+		Ok(mut g) => std::mem::take(&mut *g),
+		Err(p) => std::mem::take(&mut *p.into_inner()),
+	}
+}
+
 /// Quiet panic hook that remembers message + location (per thread) for `catch`.
 pub fn install_panic_hook() {
 	std::panic::set_hook(Box::new(|info| {
@@ -140,6 +151,11 @@ pub fn install_panic_hook() {
 		let full = format!("{} @ {}", msg, loc);
 		if std::env::var("PDBV_PANIC_TRACE").is_ok() {
 			eprintln!("panic: {}\n{}", full, std::backtrace::Backtrace::force_capture());
+		}
+		if let Ok(mut g) = ALL_PANICS.lock() {
+			if g.len() < 64 {
+				g.push(format!("{}: {}", std::thread::current().name().unwrap_or("unnamed"), full));
+			}
 		}
 		LAST_PANIC.with(|p| *p.borrow_mut() = Some(full));
 	}));
